@@ -479,7 +479,14 @@ func ruleBadSecretReply(p *Program, r *Result, typeVal map[string]int64) {
 			continue
 		}
 		found = true
+		// read with its helpers folded in when the representation is the views: the switch on the header type
+		// may sit in a helper that hands back the reply body (badSecretBody(t) (reply, ok))
+		asWritten := fn
+		if p.useViews {
+			fn = p.view(fn)
+		}
 		cases := headerTypeCases(fn)
+		_ = asWritten
 		for tn, pair := range errorStatusOf {
 			key := fnKey(fn) + ":" + tn
 			cb, ok := cases[typeVal[tn]]
